@@ -198,7 +198,7 @@ def run(tier):
     ]
     cfgs = ["MC_TxRules_ex3.cfg"] if tier == "quick" else ["MC_TxRules_ex3.cfg", "MC_TxRules_ex4.cfg"]
     for cfg in cfgs:
-        res = V.tlc(PID, "MC_TxRules", cfg, workers=4, timeout=1800, xmx="3g")
+        res = V.tlc(PID, "MC_TxRules", cfg, workers=4, timeout=1800, xmx="6g")
         if res["violated"]:
             c.violation("model/" + res["violated"], "TxRules.tla violates %s in %s" % (res["violated"], cfg),
                         {"kind": "model", "cfg": cfg, "tlc_tail": res["out"][-3000:]})
